@@ -62,7 +62,7 @@ var propertyCanaries = map[string][]string{
 	"C04": {"MAT.access", "MAT.selfguard", "ZEROED.paths", "SWAP.cond", "STRIDE.contig", "TWIN.bounds", "NILRECV"},
 	"C05": {"MAT.guardorder", "FACT.alias", "OVERLAP.extent", "OVERLAP.guard", "MODSET.mat", "OVERLAP.symmetric", "TWIN.shadow"},
 	"C06": {"FACT.alias", "FACT.failstate", "INIT.state", "ERR.overwrite", "ERR.swallow", "FACT.deadloop", "FACT.reuse", "FLAG.unset", "OKFLOW.condpath", "FACT.condafter", "FACTKIND.pair", "OKFLOW.use", "OKFLOW.cond", "OKFLOW.report", "FACT.normorder", "FACT.state", "FACT.condunit", "NILRECV"},
-	"C07": {"MAT.access", "ARGS.callee", "ARGS.ldcols", "ARGS.condlen", "ARGS.arms", "ARGS.strict", "ARGS.fullrow", "WORKSIZE.querylen", "ARGS.order", "ARGS.lencheck", "ARGS.query", "MAT.order", "ASM.window", "ASM.tail", "STRIDE.len"},
+	"C07": {"MAT.access", "ARGS.callee", "ARGS.ldcols", "ARGS.workquery", "ARGS.condlen", "ARGS.arms", "ARGS.strict", "ARGS.fullrow", "WORKSIZE.querylen", "ARGS.order", "ARGS.lencheck", "ARGS.query", "MAT.order", "ASM.window", "ASM.tail", "STRIDE.len"},
 	"C08": {"STRIDE.fullrange", "BETA.scaleguard", "CONSTFOLD.underflow", "ASM.lost", "PARAMUSE.read", "ASM.window", "ASM.tail", "ASM.units", "STRIDE.extent", "SIB.guards"},
 	"C09": {"GOPROTO.latch", "GOPROTO.lockexit", "RAW.stride", "GOPROTO.accumzero", "GOPROTO.semcap", "GOPROTO.scratch", "GLOBAL.write", "GOPROTO.capture", "GOPROTO.lockpair", "GOPROTO.sibling", "POOL.uaf"},
 	"C12": {"GRAPHINV.mapinit", "GRAPHINV.relit", "GRAPHINV.together", "GRAPHINV.expose", "SWAP.cond", "GRAPHINV.prune", "TWIN.sibguard", "GRAPHINV.panicorder", "GRAPHINV.absent", "GRAPHINV.iterreset", "GRAPHINV.converse", "GRAPHINV.uid", "GRAPHINV.iter", "TWIN.sibstate"},
@@ -107,6 +107,7 @@ func init() {
 		{"ZEROED.paths", "mat/triband.go", "Data:   useZeroed(t.mat.Data, n*(k+1)),", "Data:   use(t.mat.Data, n*(k+1)),", func() *core.Result { return zeroed.Run(def) }},
 		{"ARGS.condlen", "lapack/gonum/dlansy.go", "case (norm == lapack.MaxColumnSum || norm == lapack.MaxRowSum) && len(work) < n:", "case norm == lapack.MaxColumnSum && len(work) < n:", func() *core.Result { return flagx.RunCondLen(def, core.Pkgs("./lapack/gonum")) }},
 		{"ARGS.ldcols", "lapack/gonum/dgesvd.go", "wantua && ldu < m", "wantua && ldu < minmn", func() *core.Result { return flagx.RunLdCols(def, core.Pkgs("./lapack/gonum")) }},
+		{"ARGS.workquery", "lapack/gonum/dgeqrf.go", "case len(work) < max(1, lwork):", "case len(work) < lwork:", func() *core.Result { return flagx.RunWorkQuery(def, core.Pkgs("./lapack/gonum")) }},
 		{"ARGS.callee", "lapack/gonum/dsytrd.go", "case len(d) < n:", "case len(d) < n-1:", func() *core.Result { return worksize.RunCallee(def, core.Pkgs("./lapack/gonum")) }},
 		{"GRAPHINV.together", "graph/simple/weighted_undirected.go", "\tif fm, ok := g.edges[fid]; ok {\n\t\tfm[tid] = e\n\t} else {", "\tif fm, ok := g.edges[fid]; ok {\n\t\t_, exists := fm[tid]\n\t\tfm[tid] = e\n\t\tif exists {\n\t\t\treturn\n\t\t}\n\t} else {", func() *core.Result { return graphinv.Run(def) }},
 		{"GRAPHINV.expose", "graph/simple/dense_directed_matrix.go", "\t\tnodes := make([]graph.Node, len(g.nodes))\n\t\tcopy(nodes, g.nodes)\n\t\treturn iterator.NewOrderedNodes(nodes)", "\t\tnodes := g.nodes[:len(g.nodes)]\n\t\treturn iterator.NewOrderedNodes(nodes)", func() *core.Result { return graphinv.RunExpose(def) }},
